@@ -189,9 +189,20 @@ def c04_monitor(spec, rec, cfg, user_steps):
         ins = [c for c in spec["conns"] if c["dst"] == n]
         only_blocking = nd["advance"] and all(c["blocking"] for c in ins)
         drift = 0.0
+        # arrivals of the blocking messages each step consumed (message records: seq_in = consuming step)
+        blk_arr = {}
+        for c in ins:
+            m = r.get("messages", {}).get(c["src"]) if c["blocking"] else None
+            if m is not None:
+                for si, tr in zip(m["seq_in"], m["ts_recv"]):
+                    blk_arr.setdefault(si, []).append(tr)
         for j in range(k):
             stats["steps"] += 1
             sched, tmax, eprev, start, end, delay = r["ts_scheduled"][j], r["ts_max"][j], r["ts_end_prev"][j], r["ts_start"][j], r["ts_end"][j], r["delay"][j]
+            if "messages" in r and tmax != max([0.0] + blk_arr.get(j, [])):
+                out.append(("blocking_arrival", f"node {n} step {j}: waited for blocking arrivals until {tmax}, but the blocking messages it consumed arrived at {sorted(blk_arr.get(j, []))} "
+                            f"(latest {max([0.0] + blk_arr.get(j, []))})"))
+                break
             if sched != round(j / rate + phase, 6):
                 out.append(("scheduled_time", f"node {n} step {j}: scheduled at {sched}, expected round({j}/{rate} + {phase}, 6) = {round(j / rate + phase, 6)}"))
                 break
